@@ -31,6 +31,15 @@ KNOWN = {110: "C13.zero_length_cycle", 111: "C13.zero_length_cycle", 112: "C13.z
          220: "C13.overdrawn_year", 221: "C13.overdrawn_year"}
 
 
+REGION = {1: "C13.zero_length_cycle", 2: "C13.sticky_burnout", 3: "C13.overdrawn_year"}
+
+
+def listed(trigger):
+    """known or fixed finding: inside its trigger region the comparison with the model is one-sided"""
+    return any(f["property"] == "C13" and f["trigger"] == trigger and f["status"] in ("known", "fixed")
+               for f in common.load_findings())
+
+
 def triples(a):
     return [(a[i], a[i + 1], a[i + 2]) for i in range(0, len(a) - 2, 3)]
 
@@ -81,6 +90,11 @@ def judge(ctx, parts):
         for kind, key in (("chain", "MMC"), ("pcases", "MMP"), ("qcase", "MMQ")):
             for (ci, step, code) in part["res"][key]:
                 counts["%s.%d" % (kind, code)] = counts.get("%s.%d" % (kind, code), 0) + 1
+                if code >= 1000 and listed(REGION.get(code // 1000, "")):
+                    # the implementation differs from the (defective) model inside a known-trigger region:
+                    # allowed (a repaired defect); the monitors still ran on this step
+                    counts["one_sided.%s" % REGION[code // 1000]] = counts.get("one_sided.%s" % REGION[code // 1000], 0) + 1
+                    continue
                 if code in KNOWN:
                     if ctx.known_finding(KNOWN[code], ""):
                         continue
